@@ -303,7 +303,12 @@ var c08Readers = []string{"Reader", "GenericReader", "RowGroup.Rows", "MultiRowG
 	"ColumnPages(ID)", "ColumnPages(L)", "RangeView.Rows", "RangeView.Pages(L)", "RangeView.Pages(D)",
 	// ConvertRowReader over a source that only implements RowReader: seeks are
 	// emulated by skipping forward (a backward seek may be refused)
-	"ConvertRowReader(forward-only)"}
+	"ConvertRowReader(forward-only)",
+	// the rows of a sorted merge of the file with a buffer holding two of its rows
+	// again (overlapping key ranges: a real k-way merge); it seeks forward only
+	"MergeRowGroups.Rows(forward-only)"}
+
+func c08ForwardOnly(kind string) bool { return strings.HasSuffix(kind, "(forward-only)") }
 
 const c08RangeOff, c08RangeLen = 2, 6
 
@@ -361,6 +366,25 @@ func c08Open(f *c08File, kind string) (seekReader, []string, error) {
 	case kind == "MultiRowGroup.Rows":
 		rows := parquet.MultiRowGroup(pf.RowGroups()...).Rows()
 		return &rowsReader{r: rows, c: rows}, streamOf(f.prows), nil
+	case kind == "MergeRowGroups.Rows(forward-only)":
+		b := parquet.NewGenericBuffer[SRow]()
+		b.Write([]SRow{f.rows[3], f.rows[7]})
+		sorting := parquet.SortingRowGroupConfig(parquet.SortingColumns(parquet.Ascending("ID")))
+		m, err := parquet.MergeRowGroups(append(append([]parquet.RowGroup{}, pf.RowGroups()...), b), sorting)
+		if err != nil {
+			return nil, nil, err
+		}
+		// (the merged schema orders the columns by name)
+		var exp []parquet.Row
+		for i := range f.rows {
+			r := m.Schema().Deconstruct(nil, &f.rows[i])
+			exp = append(exp, r)
+			if i == 3 || i == 7 {
+				exp = append(exp, r)
+			}
+		}
+		rows := m.Rows()
+		return &rowsReader{r: rows, c: rows}, streamOf(exp), nil
 	case kind == "ConvertRowReader(forward-only)":
 		src := parquet.MultiRowGroup(pf.RowGroups()...).Rows()
 		conv, err := parquet.Convert(pf.Schema(), pf.Schema())
@@ -519,7 +543,7 @@ func c08Run(x *engine.X) {
 			op := fmt.Sprintf("Seek(%d)", c)
 			hist = append(hist, op)
 			if err := r.Seek(int64(c)); err != nil {
-				if kind == "ConvertRowReader(forward-only)" && c < pos {
+				if c08ForwardOnly(kind) && c < pos {
 					continue // backward seek refused by a forward-only source: position unchanged
 				}
 				if c == N {
@@ -594,7 +618,7 @@ func init() {
 		ID:    "C08",
 		Level: "model_checking",
 		MC:    true,
-		Rule: "64 files (data page v1/v2 x page index or SkipPageIndex x 1/3 row groups x none/snappy x read buffer default/16 x sync/async) of 10 nested rows with 1-4 rows per page (3 pages in the dictionary column) x 18 reader kinds (ConvertRowReader over a forward-only source, Reader, GenericReader, RowGroup.Rows, MultiRowGroup.Rows, Buffer.Rows, ColumnChunk.Pages of 5 columns, ColumnChunkValueReader of 2 columns, Column.Pages of 2 columns, and the merge planner's row-range view of rows [2,8) read as rows and as pages of 2 columns) x ALL operation sequences of length <= D (3 quick, 4 thorough; one deeper on the 4 plain v1/v2 files) over SeekToRow(0..N), Read(1|2|N+1)/ReadPage and, on Reader and GenericReader, Reset(), and, on files opened with SkipPageIndex, the lazy load of the page index, then drained; cursor model oracle on every step; " +
+		Rule: "64 files (data page v1/v2 x page index or SkipPageIndex x 1/3 row groups x none/snappy x read buffer default/16 x sync/async) of 10 nested rows with 1-4 rows per page (3 pages in the dictionary column) x 19 reader kinds (ConvertRowReader over a forward-only source, the rows of a sorted k-way merge of the file with a buffer (forward seeks only), Reader, GenericReader, RowGroup.Rows, MultiRowGroup.Rows, Buffer.Rows, ColumnChunk.Pages of 5 columns, ColumnChunkValueReader of 2 columns, Column.Pages of 2 columns, and the merge planner's row-range view of rows [2,8) read as rows and as pages of 2 columns) x ALL operation sequences of length <= D (3 quick, 4 thorough; one deeper on the 4 plain v1/v2 files) over SeekToRow(0..N), Read(1|2|N+1)/ReadPage and, on Reader and GenericReader, Reset(), and, on files opened with SkipPageIndex, the lazy load of the page index, then drained; cursor model oracle on every step; " +
 			"non-trivial = >=2 operations before the drain",
 		Assumptions: []string{"a refused SeekToRow(N) (seek to the very end) is accepted; async mode runs here under the free Go scheduler as a sequential client (its interleavings are C15's)"},
 		Bound:       func(string) int { return 0 },
